@@ -41,6 +41,10 @@ func removeProc(sc *Scenario, name string) {
 // persists. Every candidate is a full deterministic re-run.
 func minimise(t *testing.T, pd *PropDef, sc *Scenario, tape []int32, v Violation, budget time.Duration) (*Scenario, []int32, *RunResult, Violation) {
 	deadline := time.Now().Add(budget)
+	if sc.Project == nil {
+		res, _, _, _ := runAndCheck(t, pd, sc, tape)
+		return sc, tape, res, v
+	}
 	best := cloneScenario(sc)
 	same := func(c *Scenario) (*RunResult, *Violation) {
 		res, _, own, _ := runAndCheck(t, pd, c, nil)
